@@ -286,7 +286,7 @@ def gen_streak(r, src, length=8):
     return ops
 
 
-ADDR = re.compile(r' at 0x[0-9a-fA-F]+')
+ADDR = re.compile(r' (?:at|AT|At) 0[xX][0-9a-fA-F]+')
 
 
 def canon(v):
